@@ -106,7 +106,7 @@ def allowedShapes : List (String × List (List String)) :=
     ("open",     [["R"]]),
     ("stat",     [["R"]]),
     ("statperm", [["R"]]),
-    ("chmod",    [["R"], ["R", "R", "W"]]),
+    ("chmod",    [["R"], ["R", "R"], ["R", "R", "W"]]),   -- R,R: the name vanished before the second lookup
     ("chown",    [["R"]]),
     ("chtimes",  [["R"], ["R", "W"]]) ]
 
@@ -115,13 +115,14 @@ def allowedShapes : List (String × List (List String)) :=
     `Seek` takes it only for `SeekEnd`; `Stat`, `Name`, `Sync` return without locking (the
     `FileInfo` accessors are separate calls, read by the harness without preemption). -/
 def handleShapes : List (String × List (List String)) :=
-  [ ("h.read",    [["F"]]),
-    ("h.readat",  [["F"]]),
-    ("h.write",   [["F"]]),
-    ("h.writeat", [["F"]]),
-    ("h.trunc",   [["F"]]),
+  [ ("h.read",    [[], ["F"]]),      -- []: the early returns (closed / read-only handle, empty payload, bad offset)
+    ("h.readat",  [[], ["F"]]),
+    ("h.write",   [[], ["F"]]),
+    ("h.writestring", [[], ["F"]]),
+    ("h.writeat", [[], ["F"]]),
+    ("h.trunc",   [[], ["F"]]),
     ("h.seek",    [[], ["F"]]),
-    ("h.close",   [["F"]]),
+    ("h.close",   [[], ["F"]]),
     ("h.stat",    [[]]),
     ("h.name",    [[]]),
     ("h.sync",    [[]]) ]
